@@ -341,23 +341,31 @@ func refAlphabet(a gen.Ali) string {
 // ---- the main run: one alignment, one configuration -------------------------------------------
 
 type rtCase struct {
-	Ali gen.Ali `json:"ali"`
-	Cfg cfg     `json:"cfg"`
+	Ali   gen.Ali `json:"ali"`
+	Shape shape   `json:"shape"`
+	Cfg   cfg     `json:"cfg"`
 }
 
 func genRT(t *rapid.T) rtCase {
 	var c rtCase
 	c.Cfg = genCfg(t, "cfg")
+	// one case in twelve: many rows with long names (8-64 KiB of text), so that names, headers
+	// and block separators fall across the 4096-byte buffer of the lexers
+	if rapid.IntRange(0, 11).Draw(t, "manyrows") == 0 {
+		c.Ali, c.Shape = genMany(t, domOf(c.Cfg), c.Cfg)
+		return c
+	}
 	c.Ali = genAli(t, domOf(c.Cfg), maxLen(), c.Cfg)
 	return c
 }
 
 func checkRT(c rtCase) (o pbt.Outcome, err error) {
-	if !c.Cfg.valid() || !inDomain(c.Ali, domOf(c.Cfg)) {
+	if !c.Cfg.valid() || !inDomain(c.Ali, domOf(c.Cfg)) || !c.Shape.valid() {
 		o.Skip = true
 		return o, nil
 	}
-	al, want, err := buildModel(c.Ali)
+	full := expand(c.Ali, c.Shape, domOf(c.Cfg))
+	al, want, err := buildModel(full)
 	if err != nil {
 		return o, err
 	}
@@ -374,7 +382,11 @@ func checkRT(c rtCase) (o pbt.Outcome, err error) {
 	if t1, t2 := writeText(al, c.Cfg), writeText(got, c.Cfg); t1 != t2 {
 		return o, fmt.Errorf("%s: the alignment read back is written differently at byte %d", c.Cfg, firstDiff(t1, t2))
 	}
-	o.NonTrivial = classify(&o, "", c.Cfg, c.Ali)
+	o.NonTrivial = classify(&o, "", c.Cfg, full)
+	o.Class("shape: %s", shapeClass(c.Shape))
+	if c.Shape.Many > 0 {
+		o.Class("many rows: %s %s", c.Cfg.Format, textClass(len(writeText(al, c.Cfg))))
+	}
 	return o, nil
 }
 
